@@ -452,6 +452,7 @@ func registerIntrinsics(e *Engine) {
 	registerFormatBool(e)
 	registerReflectTypeOf(e)
 	registerReflectliteTypeOf(e)
+	registerReflectValueOf(e)
 }
 
 // ---------------------------------------------------------------------------
